@@ -5,7 +5,8 @@ symmetric): for every measurement (Q, y, noise, proj) of a clique, with x the da
         gradient  +=  Q^T (Q x - y) / noise^2            (wrapped in a Factor on the projected domain)
 
 - the statement's "inverse-variance weighted squared error" and the vector its derivative is (matrix calculus: d/dx 0.5|Qx-y|^2 =
-Q^T(Qx-y), not re-derived by the solver).  The one-cell instance in pv/contracts/lossgrad.py additionally covers the L1 metric and
+Q^T(Qx-y), not re-derived by the solver).  Metric L1 likewise (SITES_L1 below): loss += sum|Qx-y|/noise, gradient += Q^T sign(Qx-y)/noise.
+The one-cell instance in pv/contracts/lossgrad.py additionally covers the L1 metric and
 proves the derivative relation itself in dimension one."""
 from ..vc.linvec import LinHooks
 
@@ -30,6 +31,29 @@ def contract(cls):
 ITEMS = [('src/mbi/inference.py', 'FactoredInference._marginal_loss', contract('FactoredInference'), 'C04'),
          ('src/mbi/local_inference.py', 'LocalInference._marginal_loss', contract('LocalInference'), 'C18')]
 
+
+# metric L1, n dimensions:   loss += sum |Q x - y| / noise,   gradient += Q^T sign(Q x - y) / noise   (sign of the scaled residual; for
+# noise > 0 the same vector).  abs / sign / .sum() are deterministic uninterpreted maps on the residual vector.
+_RS = '((1.0 / noise) * (Q @ x - y))'
+SITES_L1 = [
+    dict(local='loss', nth=2, of=3, name='l1-loss-term-is-the-absolute-scaled-residual-summed', spec='__arg == loss + abs(%s).sum()' % _RS),
+    dict(local='grad', nth=1, of=2, name='l1-gradient-term-is-QT-sign-of-the-residual-over-the-noise',
+         spec='same(__arg, (1.0 / noise) * (Q.T @ np.sign(%s))) or same(__arg, (1.0 / noise) * (Q.T @ %s.sign()))' % (_RS, _RS)),
+]
+
+
+def contract_l1(cls, public=False):
+    c = contract(cls)
+    c['requires'] = ['metric is not None', 'not callable(metric)', "metric == 'L1'"]
+    c['sites'] = SITES_L1
+    if public:
+        c['uses_locals'] = ['Q', 'x', 'y', 'noise', 'mu', 'cl', 'loss', 'grad', 'diff', 'c']
+    return c
+
+
+L1_ITEMS = [('src/mbi/inference.py', 'FactoredInference._marginal_loss', contract_l1('FactoredInference'), 'C04'),
+            ('src/mbi/local_inference.py', 'LocalInference._marginal_loss', contract_l1('LocalInference'), 'C18'),
+            ('src/mbi/public_inference.py', 'PublicInference._marginal_loss', contract_l1('PublicInference', True), 'C19')]
 
 # PublicInference._marginal_loss: the same two equations; the marginals are keyed by the measurements' own attribute tuples, so the
 # residual is taken at the data vector of marginals[cl] itself
